@@ -142,19 +142,6 @@ func runC02(c *Ctx) {
 				n := c.Case("pipe", kvs("srv", k.name()), kvb("alloc", k.alloc), kvx("maxtx", uint64(k.maxTx)), kvx("seed", uint64(seed)), kvi("depth", depth),
 					kvi("sched", si), kvb("wrongkind", wrongKind), kvb("syncopens", syncOpens), kvb("big", big))
 				ok, why := pgCheckStream(prog.reqs, res.resps)
-				if os.Getenv("C02_DUMP") != "" && wrongKind {
-					for i, r := range prog.reqs {
-						t := "-"
-						if i < len(res.resps) {
-							t = pgTypeName(res.resps[i].Typ)
-							if code, isSt := res.resps[i].statusCode(); isSt {
-								t += fmt.Sprintf("(%d %q)", code, res.resps[i].Body[4:])
-							}
-						}
-						fmt.Fprintf(os.Stderr, "%d %s slot=%d sync=%v -> %s\n", i, r.op, r.slot, r.sync, t)
-					}
-					fmt.Fprintln(os.Stderr, "--", k.name())
-				}
 				if ok && !down {
 					ok, why = false, "server-hang: Serve did not return within 5 s of closing the connection"
 				}
